@@ -90,7 +90,15 @@ func scalingProgram(r *core.Rng) ([]ast.Node, string) {
 	magic := ast.IntLit{V: c09Magic}
 	bodyStmt := func() ast.Node {
 		// every statement form as the last statement of the loop body
-		switch r.Intn(9) {
+		switch r.Intn(13) {
+		case 9: // if/else with exactly one (never taken) returning branch, discarded
+			return ast.If{Cond: ast.Binary{Op: "<", L: ast.Name{N: "zi"}, R: ast.IntLit{V: 0}}, Then: ast.Return{X: ast.IntLit{V: 1}}, Else: g.Expr(gen.Int, 1)}
+		case 10:
+			return ast.If{Cond: ast.Binary{Op: ">=", L: ast.Name{N: "zi"}, R: ast.IntLit{V: 0}}, Then: g.Expr(gen.Int, 1), Else: ast.Return{X: ast.IntLit{V: 1}}}
+		case 11: // one-armed if with a never taken return
+			return ast.If{Cond: ast.Binary{Op: "<", L: ast.Name{N: "zi"}, R: ast.IntLit{V: 0}}, Then: ast.Return{X: ast.IntLit{V: 1}}}
+		case 12: // nested: if/else in the else arm
+			return ast.If{Cond: ast.Binary{Op: "<", L: ast.Name{N: "zi"}, R: ast.IntLit{V: 0}}, Then: ast.IntLit{V: 3}, Else: ast.If{Cond: ast.Binary{Op: "<", L: ast.Name{N: "zi"}, R: ast.IntLit{V: 0}}, Then: ast.Return{X: ast.IntLit{V: 2}}, Else: ast.IntLit{V: 4}}}
 		case 0:
 			return g.Expr(gen.Int, 2)
 		case 1:
@@ -138,6 +146,20 @@ func scalingProgram(r *core.Rng) ([]ast.Node, string) {
 		kind = "generator-loop"
 		loop = ast.Block{Stmts: []ast.Node{ast.Assign{Name: "zg", Value: ast.FuncLit{Params: []string{"zn"}, Body: ast.For{Vars: []string{"zk"}, Iters: []ast.Node{ast.Call{Fn: "fromto", Args: []ast.Node{ast.IntLit{V: 0}, ast.Name{N: "zn"}}}}, Body: ast.Yield{X: ast.Binary{Op: "*", L: ast.Name{N: "zk"}, R: ast.IntLit{V: 2}}}}}},
 			ast.For{Vars: []string{"zi"}, Iters: []ast.Node{ast.Call{Fn: "zg", Args: []ast.Node{magic}}}, Body: bodyStmt()}}}
+	}
+	switch r.Intn(3) {
+	case 0: // the loop is the tail of a function
+		kind += "/in-function-tail"
+		return append(pre, ast.Assign{Name: "zw", Value: ast.FuncLit{Body: loop}}, ast.Call{Fn: "zw"}), kind
+	case 1: // the loop is a discarded mid-block statement of a function
+		kind += "/in-function-discarded"
+		var body ast.Node
+		if b, ok := loop.(ast.Block); ok {
+			body = ast.Block{Stmts: append(append([]ast.Node{}, b.Stmts...), ast.IntLit{V: 0})}
+		} else {
+			body = ast.Block{Stmts: []ast.Node{loop, ast.IntLit{V: 0}}}
+		}
+		return append(pre, ast.Assign{Name: "zw", Value: ast.FuncLit{Body: body}}, ast.Call{Fn: "zw"}), kind
 	}
 	return append(pre, loop), kind
 }
@@ -246,7 +268,7 @@ func init() {
 			{Name: "residue", Count: countFn(5000, 500000), Run: c09Residue},
 			{Name: "scaling", Count: countFn(1500, 150000), Run: c09Scaling},
 		},
-		Floors: []core.Floor{{Key: "statements_compared", Quick: 10000, Thor: 1000000}, {Key: "scaling_triples", Quick: 1000, Thor: 100000}, {Key: "back_edges_sampled", Quick: 200000, Thor: 20000000}, {Key: "tag:loop:", Quick: 6, Thor: 6}},
+		Floors: []core.Floor{{Key: "statements_compared", Quick: 10000, Thor: 1000000}, {Key: "scaling_triples", Quick: 1000, Thor: 100000}, {Key: "back_edges_sampled", Quick: 200000, Thor: 20000000}, {Key: "tag:loop:", Quick: 14, Thor: 14}},
 	})
 	core.CaseSeconds["C09/scaling"] = 0.5
 }
